@@ -27,6 +27,41 @@ def confirm_alone(harness, scratch, case_line, limit="50s", cmd="replay"):
     return r[0] if r else None
 
 
+def confirm_in_context(harness, scratch, key, ctx, limit="50s", cmd="replay", extra_args=()):
+    """A failure that does not show when the case runs alone may depend on what the process did before: re-runs, in one
+    fresh process, the cases that preceded it in its worker. Returns (result of the case, context lines) or (None, None)."""
+    if not ctx or len(ctx) < 2:
+        return None, None
+    # shorten: the failing case after the second half only, after the last quarter only ... as long as it still fails
+    def run(lines):
+        p = scratch.path("confirm-ctx.ndjson")
+        with open(p, "w") as f:
+            f.writelines(l if l.endswith("\n") else l + "\n" for l in lines)
+        rs = V.replay(harness, p, scratch.path("confirm-ctx.res"), nworkers=1, limit=limit, cmd=cmd, extra_args=extra_args)
+        for r in rs:
+            if r.get("key") == key:
+                return r
+        return None
+    r = run(ctx)
+    if r is None or r["pass"]:
+        return None, None
+    last = ctx[-1]
+    pre = ctx[:-1]
+    while len(pre) > 1:
+        half = pre[len(pre) // 2:]
+        r2 = run(half + [last])
+        if r2 is not None and not r2["pass"]:
+            pre, r = half, r2
+            continue
+        half = pre[:len(pre) // 2]
+        r2 = run(half + [last])
+        if r2 is not None and not r2["pass"]:
+            pre, r = half, r2
+            continue
+        break
+    return r, pre + [last]
+
+
 def mutate_expectation(case):
     """Binding self-test: flip the expectation so that a harness that compares
     anything at all must reject the case."""
@@ -178,6 +213,10 @@ def run_s2c(prop, tier, seed, opts):
             results = V.replay(harness, res["cases"], scratch.path("res-%s.ndjson" % st["name"]),
                                limit=st.get("limit", "5s"), obs_path=obs_path, cmd=st.get("cmd", "replay"),
                                extra_args=st.get("args", spec.get("args", ())))
+            for r in results:
+                if not r["pass"]:
+                    r["_context"] = V.context_of(r.get("key"))      # what its process had run before (see confirm_in_context)
+                    r["_args"] = st.get("args", spec.get("args", ()))
             trace_info = None
             if st.get("trace"):
                 # code -> spec: TLC validates what the implementation produced
@@ -279,11 +318,16 @@ def run_s2c(prop, tier, seed, opts):
             if line is None:
                 continue
             r2 = confirm_alone(harness, scratch, line, cmd=cmd)
+            context = None
             if r2 is None or r2["pass"]:
-                notes.append("NOTE failure not reproduced alone: %s" % r.get("src"))
-                continue
+                # not a property of the case alone: does it follow from what ran in the same process before it?
+                r2, context = confirm_in_context(harness, scratch, r.get("key"), r.get("_context"), cmd=cmd, extra_args=r.get("_args", ()))
+                if r2 is None:
+                    notes.append("NOTE failure not reproduced alone nor after its predecessors: %s" % r.get("src"))
+                    continue
+                V.log("  reproduced after %d earlier case(s) in the same process" % (len(context) - 1))
             confirmed += 1
-            path = V.save_replay(prop, line, r2)
+            path = V.save_replay(prop, line, r2, context)
             f0 = r2["fails"][0]
             violations.append("VIOLATION property=%s replay=%s" % (prop, path))
             V.log("  violating case: %s | %s | %s got=%r want=%r" % (f0.get("run"), f0.get("src"), f0.get("why"), f0.get("got"), f0.get("want")))
@@ -328,7 +372,16 @@ def replay_file(prop, path):
         with open(path) as f:
             d = json.load(f)
         case = d.get("case", d)
-        r = confirm_alone(harness, scratch, json.dumps(case))
+        if d.get("context"):
+            p = scratch.path("replay-ctx.ndjson")
+            with open(p, "w") as f:
+                for c in d["context"]:
+                    f.write(json.dumps(c) + "\n")
+            rs = V.replay(harness, p, scratch.path("replay-ctx.res"), nworkers=1, limit="50s",
+                          extra_args=P.PROPS.get(prop, {}).get("args", ()))
+            r = next((x for x in rs if x.get("key") == case.get("key")), None)
+        else:
+            r = confirm_alone(harness, scratch, json.dumps(case))
         print(json.dumps(r, indent=1))
         if r is None:
             return 2
